@@ -203,6 +203,38 @@ def rtu_task_family(ctx):
     return {'scenarios': len(lines), 'shutdown_requested_in': kinds}
 
 
+def hostile_role_family(ctx):
+    """peer input that reaches the C-ABI authorization wrapper: the Modbus role of the client's TLS certificate
+    (harness `ffi_authz`, the certificate sets of the C08 check: a role string containing U+0000, a role taken
+    from a chain [leaf, issuing CA], a leaf behind an intermediate without role, an ordinary role). A peer whose
+    handshake is accepted must be answered (value or exception) on every request: a session that dies instead
+    (the task panicked in the role conversion) is a C07 violation."""
+    r = ctx.rng
+    if ctx.replay and 'role_cases' in ctx.replay:
+        lines = ctx.replay['role_cases']
+    elif ctx.replay:
+        return {}
+    else:
+        lines = []
+        reqs = ['rh:1:1', 'rh:1:2', 'wr:1:7', 'wr:1:3']
+        for role in ('nulrole', 'chained', 'viaint', 'operator'):
+            for policy in ('allow', 'deny', 'byrole'):
+                k = r.choice([1, 2, 3])
+                lines.append(f'seq ffi {policy} 1 ' + ','.join(f'{role}:{r.choice(reqs)}' for _ in range(k)))
+    certs = os.path.join(vlib.ROOT, 'certs')
+    out = ctx.harness('ffi_authz', lines, args=[vlib.REPO, certs], shards=4, timeout=600)
+    bad = 0
+    for l, o in zip(lines, out):
+        dead = [x for x in o.split(';') if not (x.startswith('client=OK') or x.startswith('client=EX:'))]
+        if dead or not o.strip():
+            bad += 1
+            if bad <= 2:
+                ctx.violation('server.c-abi.authorization.session-dies-on-certificate-role',
+                              f'a peer with an accepted certificate was not answered: {l} -> {o[:200]}', {'role_cases': [l], 'impl': o[:400]})
+    ctx.oblige('correspondence:accepted-certificate-roles-never-kill-the-session', bad == 0, f'{bad} of {len(lines)} sequences')
+    return {'sequences': len(lines)}
+
+
 def run(ctx):
     ctx.translate([])
     lemmas = check_sites(ctx)
@@ -253,10 +285,12 @@ def run(ctx):
             ctx.oblige('generator-reaches-expected-classes', False, 'missing: ' + ','.join(missing))
     reopen = rtu_reopen_family(ctx)
     rtu_task = rtu_task_family(ctx)
+    roles = hostile_role_family(ctx)
     ctx.coverage.update({
+        'hostile_certificate_roles': roles,
         'rtu_server_across_reopens': reopen,
         'rtu_server_task': rtu_task,
-        'evaluations': len(cases) + reopen.get('histories', 0) + rtu_task.get('scenarios', 0),
+        'evaluations': len(cases) + reopen.get('histories', 0) + rtu_task.get('scenarios', 0) + roles.get('sequences', 0),
         'distinct_nontrivial': len(set(c for c in cases if len(c.split()) >= 4 and len(''.join(c.split()[3:])) >= 16)),
         'rule': 'streams = concatenations of valid / mutated / badly framed Modbus frames or raw random bytes, cut into read chunks (all-at-once, byte-per-byte, random, header-edge, 260-byte-buffer-edge), a quarter with a scripted transmit side (writes taken in pieces / parked as by a peer that does not read, released or not), x role x framing x decode level; non-trivial = at least 8 stream bytes; distinct by full case text',
         'samples': [[c[:200], o] for c, o in list(zip(cases, out))[:5]],
